@@ -17,12 +17,14 @@ bool consume(Token **rest, Token *tok, char *str) { if (equal(tok, str)) { *rest
 static Node NUMS[16]; static int nnum;
 Node *stub_assign(Token **rest, Token *tok) {
   int i = (int)(tok - T);
-  if (i < 0 || i >= NT || !TXT[i] || TXT[i][0] != 'v') { ASSUME(0); }
+  if (i < 0 || i >= NT || !TXT[i] || TXT[i][0] != 'v') { OBLIGE(0, "C05.1 a valid initializer is accepted (an expression is only expected where one stands)"); ASSUME(0); }
   Node *n = &NUMS[nnum < 15 ? nnum++ : 15];
-  *n = (Node){0}; n->kind = ND_NUM; n->val = V[TXT[i][1] - '0']; n->ty = ty_int; n->tok = tok;
+  *n = (Node){0}; n->kind = ND_NUM; n->val = V[TXT[i][1] - '0']; n->ty = (SCEN == 13) ? ty_long : ty_int; n->tok = tok;   /* 64-bit leaves where the fields are wider than int */
   *rest = tok->next; return n;
 }
 int64_t stub_const_expr(Token **rest, Token *tok) { int i = (int)(tok - T); *rest = tok->next; return TXT[i][0] - '0'; }
+// every scenario is a valid initializer: reaching a diagnostic is itself a failure
+void error_tok(Token *tok, char *fmt, ...) { OBLIGE(0, "C05.1 a valid initializer is accepted (not diagnosed)"); ASSUME(0); }
 long nondet_long_(void);
 
 // ---- interpreter for the automatic-storage assignment chain
@@ -97,12 +99,47 @@ void harness(void) {
   static char *txt[] = {"{", "[", "1", "]", ".", "m", "[", "2", "]", "=", "v0", "}", ";"};
   mkmem(&M[0], 0, array_of(ty_int, 3), 0, "m", &MN[0]);
   ST = (Type){TY_STRUCT, 12, 4}; ST.members = M; ty = array_of(&ST, 2); size = 24; put(12 + 8, 4, V[0]);
+#elif SCEN == 8    /* int a[2][4] = { [0][1 ... 2] = v0, v1 }   (range designator at a nested level: the cursor resumes after the range) */
+  static char *txt[] = {"{", "[", "0", "]", "[", "1", "...", "2", "]", "=", "v0", ",", "v1", "}", ";"};
+  ty = array_of(array_of(ty_int, 4), 2); size = 32; put(4, 4, V[0]); put(8, 4, V[0]); put(12, 4, V[1]);
+#elif SCEN == 9    /* struct { int x; struct { int a, b, c; } in; int y; } = { .in.b = v0, v1, v2 }   (positional elements continue after a nested designator) */
+  static char *txt[] = {"{", ".", "in", ".", "b", "=", "v0", ",", "v1", ",", "v2", "}", ";"};
+  static Member MI[3]; static Token MIN[3];
+  mkmem(&MI[0], 0, ty_int, 0, "a", &MIN[0]); mkmem(&MI[1], 1, ty_int, 4, "b", &MIN[1]); mkmem(&MI[2], 2, ty_int, 8, "c", &MIN[2]); MI[0].next = &MI[1]; MI[1].next = &MI[2];
+  ST2 = (Type){TY_STRUCT, 12, 4}; ST2.members = MI;
+  mkmem(&M[0], 0, ty_int, 0, "x", &MN[0]); mkmem(&M[1], 1, &ST2, 4, "in", &MN[1]); mkmem(&M[2], 2, ty_int, 16, "y", &MN[2]); M[0].next = &M[1]; M[1].next = &M[2];
+  ST = (Type){TY_STRUCT, 20, 4}; ST.members = M; ty = &ST; size = 20; put(8, 4, V[0]); put(12, 4, V[1]); put(16, 4, V[2]);
+#elif SCEN == 10   /* struct { int p:3; int :5; int q:4; int r; } = { v0, v1, v2 }   (6.7.9p9: unnamed members take no initializer) */
+  static char *txt[] = {"{", "v0", ",", "v1", ",", "v2", "}", ";"};
+  mkmem(&M[0], 0, ty_int, 0, "p", &MN[0]); M[0].is_bitfield = 1; M[0].bit_offset = 0; M[0].bit_width = 3;
+  mkmem(&M[1], 1, ty_int, 0, "", &MN[1]); M[1].name = 0; M[1].is_bitfield = 1; M[1].bit_offset = 3; M[1].bit_width = 5;
+  mkmem(&M[2], 2, ty_int, 1, "q", &MN[2]); M[2].is_bitfield = 1; M[2].bit_offset = 0; M[2].bit_width = 4;
+  mkmem(&M[3], 3, ty_int, 4, "r", &MN[3]);
+  M[0].next = &M[1]; M[1].next = &M[2]; M[2].next = &M[3];
+  ST = (Type){TY_STRUCT, 8, 4}; ST.members = M; ty = &ST; size = 8; put(0, 1, V[0] & 7); put(1, 1, V[1] & 15); put(4, 4, V[2]);
+#elif SCEN == 11   /* int a[6] = { [1 ... 2] = v0, v1 }   (range designator at the top level, then a positional element) */
+  static char *txt[] = {"{", "[", "1", "...", "2", "]", "=", "v0", ",", "v1", "}", ";"};
+  ty = array_of(ty_int, 6); size = 24; put(4, 4, V[0]); put(8, 4, V[0]); put(12, 4, V[1]);
+#elif SCEN == 12   /* char a[8] = "......" : a 6-byte string literal with ARBITRARY bytes (embedded NULs included) */
+  static char *txt[] = {"S", ";"};
+  static char SB[6]; for (int i = 0; i < 6; i++) { SB[i] = (char)V[i]; put(i, 1, (unsigned char)V[i]); }
+  ty = array_of(ty_char, 8); size = 8;
+#elif SCEN == 13   /* struct { unsigned long a:33; long b:20; } = { v0, v1 }   (bit-fields wider than 32 bits) */
+  static char *txt[] = {"{", "v0", ",", "v1", "}", ";"};
+  mkmem(&M[0], 0, ty_ulong, 0, "a", &MN[0]); M[0].is_bitfield = 1; M[0].bit_offset = 0; M[0].bit_width = 33;
+  mkmem(&M[1], 1, ty_long, 0, "b", &MN[1]); M[1].is_bitfield = 1; M[1].bit_offset = 33; M[1].bit_width = 20;
+  M[0].next = &M[1];
+  ST = (Type){TY_STRUCT, 8, 8}; ST.members = M; ty = &ST; size = 8; put(0, 8, ((uint64_t)V[0] & 0x1ffffffffUL) | (((uint64_t)V[1] & 0xfffffUL) << 33));
 #else              /* int a[2][2] = { { v0 }, v1, v2 }   (mixed braces / elision) */
   static char *txt[] = {"{", "{", "v0", "}", ",", "v1", ",", "v2", "}", ";"};
   ty = array_of(array_of(ty_int, 2), 2); size = 16; put(0, 4, V[0]); put(8, 4, V[1]); put(12, 4, V[2]);
 #endif
   int ntok = (int)(sizeof(txt) / sizeof(txt[0]));
-  for (int i = 0; i < NT; i++) { TXT[i] = i < ntok ? txt[i] : ";"; T[i] = (Token){0}; T[i].kind = ((TXT[i][0] >= 'a' && TXT[i][0] <= 'z') || (TXT[i][0] >= '0' && TXT[i][0] <= '9')) ? TK_IDENT : TK_PUNCT; T[i].loc = TXT[i]; T[i].len = (int)strlen(TXT[i]); T[i].next = i + 1 < NT ? &T[i + 1] : &T[i]; }
+  for (int i = 0; i < NT; i++) { TXT[i] = i < ntok ? txt[i] : ";"; T[i] = (Token){0}; T[i].kind = ((TXT[i][0] >= 'a' && TXT[i][0] <= 'z') || (TXT[i][0] >= '0' && TXT[i][0] <= '9')) ? TK_IDENT : TK_PUNCT; T[i].loc = TXT[i]; T[i].len = (int)strlen(TXT[i]);
+#if SCEN == 12
+    if (TXT[i][0] == 'S') { T[i].kind = TK_STR; T[i].str = SB; T[i].ty = array_of(ty_char, 6); }
+#endif
+    T[i].next = i + 1 < NT ? &T[i + 1] : &T[i]; }
   Token *rest = 0; Type *newty = 0;
   Initializer *init = initializer(&rest, &T[0], ty, &newty);
   REACH("initializer returns");
